@@ -284,6 +284,16 @@ func convert(values map[string]any, convPairs map[string]streamConvertPair, isSt
 
 func restore(values map[string]any, convPairs map[string]streamConvertPair, isStream bool) error {
 	if !isStream {
+		// a checkpoint written by a streaming run may hold the mark of a stream without chunks: as a value that is
+		// "nothing", the zero value of the node's input
+		for key, v := range values {
+			if _, empty := v.(emptyStreamMark); empty {
+				values[key] = nil
+				if pair, ok := convPairs[key]; ok && pair.zeroValue != nil {
+					values[key] = pair.zeroValue()
+				}
+			}
+		}
 		return nil
 	}
 	for key, v := range values {
